@@ -11,10 +11,10 @@ import common
 import pyref
 import tlcrun
 
-PLANS = {"quick": [("e2e3", "e2e", 3, 4500), ("e2et4", "e2et", 4, 1500), ("e2eb4", "e2eb", 4, 1500)],
+PLANS = {"quick": [("e2e3", "e2e", 3, 4500), ("e2et4", "e2et", 4, 1500), ("e2eb4", "e2eb", 4, 1500), ("e2el3", "e2el", 3, None)],
          # (budget 4 of the full family has > 15M derivation states: seeded random walks instead)
          "thorough": [("e2e3", "e2e", 3, 60000), ("e2eR5", "e2e", 5, 30000, 40000), ("e2et5", "e2et", 5, 20000),
-                      ("e2eb4", "e2eb", 4, 20000)]}
+                      ("e2eb4", "e2eb", 4, 20000), ("e2el3", "e2el", 3, None), ("e2el4", "e2el", 4, 30000)]}
 OPS = ("Select", "Where", "SelectMany")
 
 TYPED_SOURCE = '''
@@ -52,6 +52,58 @@ def chain_steps_m(t):
     return None
 
 
+def _template(a, b, holes):
+    """terms a and b are equal up to integer constants -> a with the differing constants replaced by names c<k>; else None"""
+    if a["k"] != b["k"] or a["s"] != b["s"] or a["p"] != b["p"] or len(a["a"]) != len(b["a"]):
+        return None
+    if a["k"] == "int":
+        if a["n"] == b["n"]:
+            return a
+        holes.append((a["n"], b["n"]))
+        return codec.T("name", s=f"c{len(holes) - 1}")
+    if a["n"] != b["n"]:
+        return None
+    kids = []
+    for x, y in zip(a["a"], b["a"]):
+        k = _template(x, y, holes)
+        if k is None:
+            return None
+        kids.append(k)
+    return dict(a, a=kids)
+
+
+def render_chain(steps):
+    """source lines building stream s from ds; two consecutive stages that differ only in integer constants are written
+    as ONE lambda expression evaluated in a loop over the constants (the same code object, different captured values)"""
+    lines = ["    s = ds"]
+    i = 0
+    while i < len(steps):
+        op, lam = steps[i]
+        if i + 1 < len(steps) and steps[i + 1][0] == op:
+            holes = []
+            tpl = _template(lam, steps[i + 1][1], holes)
+            if tpl is not None and holes:
+                names = ", ".join(f"c{k}" for k in range(len(holes)))
+                firsts = ", ".join(str(h[0]) for h in holes) + ("," if len(holes) == 1 else "")
+                seconds = ", ".join(str(h[1]) for h in holes) + ("," if len(holes) == 1 else "")
+                target = names + ("," if len(holes) == 1 else "")
+                lines.append(f"    for {target} in (({firsts}), ({seconds})):")
+                lines.append(f"        s = s.{op}({codec.src(tpl)})")
+                i += 2
+                continue
+        lines.append(f"    s = s.{op}({codec.src(lam)})")
+        i += 1
+    lines.append("    return s")
+    return "\n".join(lines)
+
+
+_REPLAY_ONE = None
+
+
+def _call_replay_one(i):
+    return _REPLAY_ONE(i)
+
+
 def mentions(t, name):
     return (t["k"] == "name" and t["s"] == name) or any(mentions(c, name) for c in t["a"])
 
@@ -64,6 +116,7 @@ def run(prop, tier):
     from func_adl.ast.function_simplifier import simplify_chained_calls
     rep = common.Report(prop, tier)
     progs = []
+    loops = []        # chain i is rendered with loops over constants (callable supply)
     fams = {}
     for entry in PLANS[tier]:
         (name, fam, budget, keep) = entry[:4]
@@ -81,6 +134,7 @@ def run(prop, tier):
             got = common.subsample_stratified(got, keep, salt=name)
         fams[name] = {"generated": total, "fluent_chains_replayed": len(got), "budget": budget}
         progs += got
+        loops += [fam == "e2el"] * len(got)
     # model datasets exported by TLC (single source of truth), as live Python objects
     d = tlcrun.fresh_dir(common.outdir(prop, "data"))
     cfg = os.path.join(d, "te.cfg")
@@ -118,6 +172,9 @@ def run(prop, tier):
         with open(modpath, "w") as f:
             f.write("CUT = 30\nSCALE = 2\nx = 1000  # module globals named like the binders the programs use\ny = 2000\n" + pyref.HELPERS_SRC.replace("\ndef ", "\n\n\ndef ") + "\n\n")
             for i in range(c0, min(c0 + CHUNK, len(progs))):
+                if loops[i]:
+                    f.write(f"def q_{i}(ds):\n{render_chain(chain_steps_m(progs[i]))}\n\n\n")
+                    continue
                 body = "        ds\n"
                 for op, lam in chain_steps_m(progs[i]):
                     body += f"        .{op}({codec.src(lam)})\n"
@@ -129,16 +186,17 @@ def run(prop, tier):
         for i in range(c0, min(c0 + CHUNK, len(progs))):
             mods[i] = mod
 
-    recs = []
-    for i, p in enumerate(progs):
+    def replay_one(i):
+        p = progs[i]
+        recs = []
         steps = chain_steps_m(p)
         src = codec.src(p)
         mean = [pyref.run_source(src, ds) for ds in datasets]
         for variant in range(2):
-            how = (i + variant) % 3             # str / ast / callable
+            how = 2 if loops[i] else (i + variant) % 3             # str / ast / callable
             typed = (i // 3 + variant) % 2 == 0
             terminal = (i + variant) % 5 == 0
-            rec = {"id": len(recs), "pass": "e2e", "in": p, "out": codec.T("absent"), "out2": codec.T("absent"),
+            rec = {"id": 2 * i + variant, "pass": "e2e", "in": p, "out": codec.T("absent"), "out2": codec.T("absent"),
                    "mean": mean, "exc": "", "exc2": "", "flags": {"compiles": True, "shape": False},
                    "variant": {"supply": ["str", "ast", "callable"][how], "typed": typed, "terminal": terminal}}
             log = []
@@ -174,6 +232,14 @@ def run(prop, tier):
                 rec["exc"] = type(e).__name__
                 rec["msg"] = str(e)[:120]
             recs.append(rec)
+        return recs
+
+    # the chains are independent of each other: replayed by forked workers (the generated modules are already imported)
+    global _REPLAY_ONE
+    _REPLAY_ONE = replay_one
+    import multiprocessing
+    with multiprocessing.get_context("fork").Pool(min(16, os.cpu_count() or 1)) as pool:
+        recs = [r for rs in pool.map(_call_replay_one, range(len(progs)), chunksize=50) for r in rs]
     vrecs = [{k: r[k] for k in ("id", "pass", "in", "out", "out2", "mean", "exc", "exc2", "flags")} for r in recs]
     verdicts, vst = common.validate(prop, "e2e", "TracePass", vrecs)
     rep.add_tlc(vst)
